@@ -821,3 +821,35 @@ func c19ResultFields(c *Ctx) {
 	}
 	c.Floor(rule, n, 4, "result fields read on the stateless result paths")
 }
+
+// c10VRFProofWriters: the beacon's BeginBlock extracts the VRF output of every stored proof with UnsafeToHash, which
+// panics for a malformed proof; so proofs enter the VRF state only where their verification has succeeded.
+func c10VRFProofWriters(c *Ctx) {
+	const rule = "C10.panics"
+	n := 0
+	for _, fn := range c.P.ModFuncs {
+		if fn.Blocks == nil || !strings.HasPrefix(short(fpkgPath(fn)), "consensus/cometbft/apps/beacon") {
+			continue
+		}
+		var ups []ssa.Instruction
+		for _, b := range fn.Blocks {
+			for _, in := range b.Instrs {
+				mu, ok := in.(*ssa.MapUpdate)
+				if !ok {
+					continue
+				}
+				mt, ok := mu.Map.Type().Underlying().(*types.Map)
+				if !ok || namedOf(derefType(mt.Elem())) != "common/crypto/signature.Proof" {
+					continue
+				}
+				ups = append(ups, in)
+			}
+		}
+		if len(ups) == 0 {
+			continue
+		}
+		n++
+		c.DominatedByCond(rule, fn, "proof.Verify(alpha) ok", `^common/crypto/signature\.\(\*Proof\)\.Verify\(.*\)#0$`, Ev{Name: "store into the VRF proof map", Fn: fn, Ins: ups}, "a VRF proof is stored only after it verified: the next epoch transition extracts its output with UnsafeToHash, which panics (in BeginBlock, on every node) for a proof that does not decode")
+	}
+	c.Floor(rule, n, 1, "functions that store VRF proofs")
+}
